@@ -750,7 +750,21 @@ def explore(fn, params, prefix=(), opts=None, budget_s=None, max_paths=None) -> 
     t_start = time.perf_counter()
     stack = [list(prefix)]
     nsamples = opts.get("samples", 3)
+    # Harnesses that drive real event loops leave helper threads behind (asyncio's default executor:
+    # getaddrinfo, close).  The cyclic garbage collector may then run in such a thread and free z3
+    # objects while the main thread is inside a z3 call with the GIL released - libz3 is not
+    # thread-safe and crashes.  With gc_guard the collector only runs here, between paths.
+    gc_guard = bool(opts.get("gc_guard"))
+    if gc_guard:
+        import gc
+
+        gc.disable()
+    npaths_gc = 0
     while stack:
+        if gc_guard:
+            npaths_gc += 1
+            if npaths_gc % 20 == 0:
+                gc.collect()
         if (budget_s is not None and time.perf_counter() - t_start > budget_s) or (
             max_paths is not None and res.paths + res.cut + res.aborted >= max_paths
         ):
